@@ -67,3 +67,33 @@ Proof.
   cbv zeta. split; [vm_compute; reflexivity|]. split; [|split; vm_compute; reflexivity].
   cbn [ops_ok2 op_ok2 op_ok]. repeat split; vm_compute; reflexivity.
 Qed.
+
+(* A document collected from paragraphs (impl FromIterator<Paragraph> for Deb822), the paragraphs being
+   any live paragraphs - e.g. parsed ones whose last line has no line end: every paragraph that is
+   followed by another one is terminated, one blank line separates them, the result is a live
+   document (hence re-reads to the same paragraphs: C04_history's last clause with ops = []) and
+   reports the paragraphs' items in order. *)
+Theorem C05_from_paragraphs : forall ps, Forall (fun its => wf_items its false = true) ps ->
+  deb822_of_paragraphs (map (fun its => lblock_tree (LPara its)) ps) = ltree_of (layout_paras ps) /\
+  lwf (layout_paras ps) = true /\
+  lcontent (layout_paras ps) = map (flat_map item_pairs) ps.
+Proof. exact from_paragraphs_live. Qed.
+Check C05_from_paragraphs : forall ps, Forall (fun its => wf_items its false = true) ps ->
+  deb822_of_paragraphs (map (fun its => lblock_tree (LPara its)) ps) = ltree_of (layout_paras ps) /\
+  lwf (layout_paras ps) = true /\
+  lcontent (layout_paras ps) = map (flat_map item_pairs) ps.
+Print Assumptions C05_from_paragraphs.
+
+(* ... which the code before fix 316b0fc did not do: "A: 1" and "B: 2" were fused. *)
+Theorem C05_from_paragraphs_before_fix_refuted :
+  let a := lblock_tree (LPara [IField (mk_field [65%N] [32%N] [49%N] [] false)]) in
+  let b := lblock_tree (LPara [IField (mk_field [66%N] [32%N] [50%N] [] false)]) in
+  let t := Node ROOT (join_paras_before_fix 0 [a; b]) in
+  length (doc_items t) = 2 /\ exists t', from_str (text t) = Ok t' /\ length (doc_items t') = 1.
+Proof. exact from_paragraphs_before_fix_refuted. Qed.
+Check C05_from_paragraphs_before_fix_refuted :
+  let a := lblock_tree (LPara [IField (mk_field [65%N] [32%N] [49%N] [] false)]) in
+  let b := lblock_tree (LPara [IField (mk_field [66%N] [32%N] [50%N] [] false)]) in
+  let t := Node ROOT (join_paras_before_fix 0 [a; b]) in
+  length (doc_items t) = 2 /\ exists t', from_str (text t) = Ok t' /\ length (doc_items t') = 1.
+Print Assumptions C05_from_paragraphs_before_fix_refuted.
